@@ -17,6 +17,7 @@
 -/
 import Scico.Proofs.Jaxpr
 import Scico.Proofs.JaxprExample
+import Scico.Proofs.JaxprScope
 import Mathlib.LinearAlgebra.Pi
 import Mathlib.LinearAlgebra.Matrix.ToLin
 
@@ -49,6 +50,22 @@ theorem C06_check_sound (I : Interp V) (hI : I.Sound R K) (p : Prog) :
 /-- the generated obligations are stated with `checkFast`, the same checker in an evaluation order the
     kernel reduces quickly; it computes `check` -/
 theorem C06_checkFast_eq_check (p : Prog) : checkFast p = check p := checkFast_eq_check p
+
+/-- nothing the checker accepts depends on the default value the semantics returns for an undefined
+    variable: a variable that is not tagged `bad` is defined by an equation reading only the inputs and
+    the variables of earlier equations -/
+theorem C06_accepted_reads_defined (p : Prog) (k : Nat) (hk : k < p.eqns.length)
+    (h : tagOf (progTags p) (p.nin + k) ≠ .bad) :
+    (∀ a ∈ p.eqns[k].params, a < p.nin + k) ∧ ∀ a ∈ p.eqns[k].args, a < p.nin + k :=
+  accepted_reads_defined p k hk h
+
+/-- the checker is not vacuously strict: every well-scoped program built from jointly linear
+    primitives only is accepted (`linC`, or `const true` when no output depends on the input) -/
+theorem C06_check_accepts_pureLin (p : Prog) (h : PureLin p.nin p.eqns)
+    (houts : ∀ o ∈ p.outs, o < p.nin + p.eqns.length) :
+    check p = .linC ∨ check p = .const true := by
+  have := check_accepts_pureLin p h houts
+  rcases hc : check p with ⟨_ | _⟩ | _ | _ | _ | _ <;> simp [hc, Tag.isLinC] at this ⊢
 
 /-- the accepted program is (the underlying function of) a `K`-linear map -/
 theorem C06_check_linC_linearMap (I : Interp V) (hI : I.Sound R K) (p : Prog) (h : check p = .linC) :
